@@ -342,6 +342,9 @@ func (g *Gen) Next(now int64) Op {
 			case 2:
 				mask = []string{"expiration_policy"}
 				req.Expiration = p64([]int64{3600 * Sec, 24 * 3600 * Sec, 600 * Sec}[g.R.Intn(3)])
+				if g.R.Intn(4) == 0 {
+					req.Expiration = nil // no policy in the request: the default TTL
+				}
 			case 3:
 				mask = []string{"message_retention_duration"}
 				req.Retention = p64([]int64{300 * Sec, 600 * Sec, 3600 * Sec, 120 * Sec}[g.R.Intn(4)])
